@@ -341,7 +341,7 @@ pub const C11: CheckDef = CheckDef {
     worker: |ctx| {
         c11_directed(ctx)?;
         let dense = ctx.tier.pick(300, 800);
-        ctx.max_shrink.set(150);
+        ctx.max_shrink.set(40);
         run_proptest(ctx, 11, ctx.share(ctx.tier.pick(2_000, 30_000)), eng_strategy(22, 40), eng_json, move |c, st| c11_case(c, st, dense))
     },
     replay: |v| {
